@@ -253,6 +253,50 @@ def r2_temperature(ctx):
               "annealing-off configurations still change the temperature", construct="annealing-off early return (initialise)")
 
 
+def r3b_rolling_window(ctx):
+    """'change only at multiples of the acceptance-history length ... only for blocks whose mean acceptance rate left the band': the mean is
+    taken over a window of exactly `acceptation_history_length` steps - each update drops the oldest row and appends the newest."""
+    from ..astq import Inliner
+    ctx.rule("C19.R3b", "acceptance history: rolling window of constant length (oldest row dropped, newest appended), for every window length >= 1", 2)
+    f = ctx.ix.func("leaspy.samplers.base", "AbstractSampler._update_acceptation_rate", "C19.R3b")
+    inl = Inliner(f.node)
+    asg = [st for st in statements(f.node) if isinstance(st, ast.Assign) and U(st.targets[0]) == "self.acceptation_history"]
+    if len(asg) != 1:
+        ctx.unknown("C19.R3b", f, f.node, f"{len(asg)} assignments of the acceptance history (one expected)", construct="rolling window")
+        return
+    v = inl.resolve(asg[0].value)
+    ok_shape = isinstance(v, ast.Call) and U(v.func) in ("torch.cat", "torch.concat", "torch.concatenate") and v.args and isinstance(v.args[0], (ast.List, ast.Tuple)) and len(v.args[0].elts) == 2
+    if not ok_shape:
+        ctx.unknown("C19.R3b", f, asg[0], f"`{U(v)[:80]}` is not `torch.cat([<kept rows>, <new row>])`", construct="rolling window")
+        return
+    kept, new = v.args[0].elts
+    par = f.node.args.args[1].arg if len(f.node.args.args) > 1 else "accepted"
+    ctx.check(U(new) in (f"{par}.unsqueeze(0)", f"{par}[None]", f"{par}[None, ...]"), "C19.R3b", f, asg[0], "the newest acceptance is appended as the last row", f"the appended row is `{U(new)[:50]}`, not the newest acceptance",
+              construct="newest row appended")
+    if not (isinstance(kept, ast.Subscript) and U(kept.value) == "self.acceptation_history" and isinstance(kept.slice, ast.Slice) and kept.slice.step is None):
+        ctx.unknown("C19.R3b", f, asg[0], f"kept rows `{U(kept)[:60]}` are not a slice of the previous history", construct="rolling window")
+        return
+    bad, undec = None, None
+    for Lw in range(1, 8):
+        env = {"self.acceptation_history_length": Lw, "len(self.acceptation_history)": Lw, "self.acceptation_history.shape[0]": Lw}
+        try:
+            lo = eval_guard(inl.resolve(kept.slice.lower), env) if kept.slice.lower is not None else None
+            hi = eval_guard(inl.resolve(kept.slice.upper), env) if kept.slice.upper is not None else None
+        except (GuardUnsupported, TypeError, ZeroDivisionError) as e:
+            undec = str(e)
+            break
+        got = list(range(Lw))[lo:hi]
+        if got != list(range(1, Lw)) and bad is None:
+            bad = (Lw, got)
+    if undec is not None:
+        ctx.unknown("C19.R3b", f, asg[0], f"cannot evaluate the bounds of `{U(kept)[:60]}` ({undec})", construct="rolling window")
+    elif bad:
+        ctx.violation("C19.R3b", f, asg[0], f"with acceptation_history_length = {bad[0]} the rows kept by `{U(kept)[:60]}` are {bad[1]} (positions in the old window) instead of {list(range(1, bad[0]))}: "
+                      "the window does not keep its length, so the mean acceptance rate is taken over another number of steps than configured", construct="rolling window")
+    else:
+        ctx.ok("C19.R3b", f, asg[0], "rows 1 .. L-1 of the old window are kept, for every window length L = 1 .. 7", construct="rolling window")
+
+
 def r3_std(ctx, rid="C19.R3", title=None):
     ctx.rule(rid, title or "proposal scale: gated by the history length, (1-f) below the band, (1+f) above, f in (0,1); no other writer", 6)
     ix = ctx.ix
@@ -396,6 +440,7 @@ def rules(ctx):
     r1_divisor(ctx)
     r2_temperature(ctx)
     r3_std(ctx)
+    r3b_rolling_window(ctx)
     r4_configuration_reaches_object(ctx)
     r5_temperature_updated_every_iteration(ctx)
     ctx.assume("acceptation_history_length is a positive integer (documented precondition)")
